@@ -483,6 +483,7 @@ static void run_cmd(char *line)
     if (!e) { for (size_t i = 0; i < nk; i++) { printf(" "); put_hex(ks[i]); } econf_freeArray(ks); }
     printf("\n"); free(g);
   }
+  else if (!strcmp(c, "TOOLSHOW")) printf("~toolshow\n");   /* answered by the model only */
   else if (!strcmp(c, "KEYSUM")) { /* KEYSUM slot group : sums of all section names and of the group's keys */
     econf_file *kf = slot[sl(tok[1])];
     char *g = decc(tok[2], NULL); size_t ng = 0, nk = 0; char **gr = NULL, **ks = NULL;
